@@ -240,8 +240,6 @@ Fixpoint pool_clauses (shut : list N) (prev : obs) (steps : list (op * obs)) : P
   | [] => True
   | (o, ob) :: r => pool_clause shut prev o ob /\ pool_clauses (next_shut shut o ob) ob r
   end.
-Fixpoint fresh_ids (prev : obs) (steps : list (op * obs)) : Prop :=
-  match steps with [] => True | (o, ob) :: r => fresh_obs o prev /\ fresh_ids ob r end.
 
 
 (* instance ids of the model pool; the cloud hands out fresh instance ids *)
@@ -251,6 +249,8 @@ Definition fresh_create (o : op) (p : wpool) : Prop :=
 
 Definition fresh_obs (o : op) (prev : obs) : Prop :=
   match o with OCreate _ id _ => ~ In id (inst_ids prev) | _ => True end.
+Fixpoint fresh_ids (prev : obs) (steps : list (op * obs)) : Prop :=
+  match steps with [] => True | (o, ob) :: r => fresh_obs o prev /\ fresh_ids ob r end.
 
 Definition shut_id (i : N) (p : wpool) : Prop := exists w, In w (p_workers p) /\ w_id w = i /\ w_st w = WShutdown.
 Definition only_shut (i : N) (p : wpool) : Prop := forall w, In w (p_workers p) -> w_id w = i -> w_st w = WShutdown.
